@@ -115,7 +115,7 @@ def _delivery(K, n_up, n_down):
               clause='every packet accepted by send_packet reaches the peer exactly once and in submission order, every packet the peer queues comes '
                      'out of receive_packet exactly once and in order, whatever pattern of lost transmissions and lost acknowledgements occurs',
               bounded='%d transmissions after negotiation, every outcome sequence over %s and every submission schedule; %d uplink / %d downlink packets '
-                      'with symbolic payloads' % (K, OUTCOMES, n_up, n_down), max_paths=60000, thorough_only=(K > 4))
+                      'with symbolic payloads' % (K, OUTCOMES, n_up, n_down), max_paths=400000, thorough_only=(K > 4))
     def k(c):
         ups = []
         for i in range(n_up):
@@ -200,7 +200,8 @@ def _delivery(K, n_up, n_down):
 
 
 _delivery(4, 2, 2)
-_delivery(5, 3, 3)     # registered below as thorough-only
+_delivery(5, 3, 3)     # thorough only
+_delivery(6, 3, 3)     # thorough only
 
 
 def _link_error(N):
